@@ -203,7 +203,7 @@ func startChild() (wait func() (*collector, error)) {
 			return
 		}
 		buildS := time.Since(st).Seconds()
-		cmd := exec.Command(bin, "-test.timeout=0", "-test.count=1", "-test.run", "^(TestBFS|TestRandomWalks)$")
+		cmd := exec.Command(bin, "-test.timeout=0", "-test.count=1", "-test.run", "^(TestBFS|TestRandomWalks|TestScripted)$")
 		cmd.Env = append(os.Environ(), "C14_CHILD="+out, "GORACE=")
 		cmd.Stdout = os.Stdout
 		cmd.Stderr = os.Stderr
